@@ -15,6 +15,18 @@ struct Shared {
     mirror: AtomicUsize,
     entered: AtomicUsize,
     bad: StdMutex<Vec<String>>,
+    // a holder is about to panic for its own reasons inside the guard (set under the lock)
+    poison_due: std::sync::atomic::AtomicBool,
+    bad_poison: StdMutex<Vec<String>>,
+}
+
+/// the LockResult of an acquisition must say "poisoned" iff a holder has panicked inside its guard
+fn check_poison(sh: &Shared, is_err: bool, who: &str) {
+    let due = sh.poison_due.load(SeqCst);
+    if is_err != due {
+        sh.bad_poison.lock().unwrap().push(format!("{who}: lock() returned {} although {}", if is_err { "Poisoned" } else { "Ok" },
+            if due { "a holder panicked inside its guard" } else { "no holder panicked (guards were only dropped normally or by a cancellation)" }));
+    }
 }
 
 fn critical(sh: &Shared, g: &mut u64, who: &str) {
@@ -39,7 +51,10 @@ pub fn build(_ctl: &'static Ctrl, params: &Value) -> Instance {
         mirror: AtomicUsize::new(0),
         entered: AtomicUsize::new(0),
         bad: StdMutex::new(vec![]),
+        poison_due: std::sync::atomic::AtomicBool::new(false),
+        bad_poison: StdMutex::new(vec![]),
     });
+    let check_p = params["check_poison"].as_bool().unwrap_or(false);
     let mut actors = vec![];
     let mut expect_locks = 0usize;
     let victims: Vec<String> = params["victims"].as_array().map(|a| a.iter().map(|v| v.as_str().unwrap().to_string()).collect()).unwrap_or_default();
@@ -48,7 +63,7 @@ pub fn build(_ctl: &'static Ctrl, params: &Value) -> Instance {
         let is_co = a["co"].as_bool().unwrap_or(false);
         let prog: Vec<String> = a["prog"].as_array().unwrap().iter().map(|v| v.as_str().unwrap().to_string()).collect();
         if !victims.contains(&name) {
-            expect_locks += prog.iter().filter(|p| *p == "lock").count();
+            expect_locks += prog.iter().filter(|p| *p == "lock" || *p == "plock" || *p == "ylock").count();
         }
         let sh2 = sh.clone();
         let nm = name.clone();
@@ -56,8 +71,33 @@ pub fn build(_ctl: &'static Ctrl, params: &Value) -> Instance {
             for op in prog {
                 match op.as_str() {
                     "lock" => {
-                        let mut g = sh2.m.lock().unwrap_or_else(|e| e.into_inner());
+                        let r = sh2.m.lock();
+                        if check_p {
+                            check_poison(&sh2, r.is_err(), &nm);
+                        }
+                        let mut g = r.unwrap_or_else(|e| e.into_inner());
                         critical(&sh2, &mut g, &nm);
+                    }
+                    // panic inside the guard: poisons
+                    "plock" => {
+                        let r = sh2.m.lock();
+                        if check_p {
+                            check_poison(&sh2, r.is_err(), &nm);
+                        }
+                        let mut g = r.unwrap_or_else(|e| e.into_inner());
+                        critical(&sh2, &mut g, &nm);
+                        sh2.poison_due.store(true, SeqCst);
+                        panic!("holder panics inside the guard");
+                    }
+                    // a cancellation point inside the guard: a cancelled holder unwinds through the guard, no poison
+                    "ylock" => {
+                        let r = sh2.m.lock();
+                        if check_p {
+                            check_poison(&sh2, r.is_err(), &nm);
+                        }
+                        let mut g = r.unwrap_or_else(|e| e.into_inner());
+                        critical(&sh2, &mut g, &nm);
+                        may::coroutine::yield_now();
                     }
                     "try" => {
                         if let Ok(mut g) = sh2.m.try_lock() {
@@ -72,6 +112,9 @@ pub fn build(_ctl: &'static Ctrl, params: &Value) -> Instance {
     let opts = ExecOpts { cats: vec!["mutex"], victims: victims.clone(), ..Default::default() };
     let sh3 = sh.clone();
     let nvict = victims.len();
+    let panickers: Vec<String> = params["actors"].as_array().unwrap().iter()
+        .filter(|a| a["prog"].as_array().unwrap().iter().any(|p| p == "plock"))
+        .map(|a| a["name"].as_str().unwrap().to_string()).collect();
     Instance {
         opts,
         actors,
@@ -81,6 +124,9 @@ pub fn build(_ctl: &'static Ctrl, params: &Value) -> Instance {
             let mut v = vec![];
             for b in sh3.bad.lock().unwrap().iter() {
                 v.push(Violation { kind: "mutual_exclusion".into(), detail: b.clone() });
+            }
+            for b in sh3.bad_poison.lock().unwrap().iter() {
+                v.push(Violation { kind: "poison".into(), detail: b.clone() });
             }
             match &out.end {
                 End::Finished => {
@@ -96,8 +142,11 @@ pub fn build(_ctl: &'static Ctrl, params: &Value) -> Instance {
                             v.push(Violation { kind: "lock_leaked".into(), detail: "all actors finished but try_lock fails".into() })
                         }
                     }
+                    if check_p && sh3.m.is_poisoned() != sh3.poison_due.load(SeqCst) {
+                        v.push(Violation { kind: "poison".into(), detail: format!("at the end is_poisoned() = {} but a holder panicked inside its guard = {}", sh3.m.is_poisoned(), sh3.poison_due.load(SeqCst)) });
+                    }
                     for (i, p) in out.panicked.iter().enumerate() {
-                        if *p && !(nvict > 0 && victims.contains(&out.names[i])) {
+                        if *p && !(nvict > 0 && victims.contains(&out.names[i])) && !panickers.contains(&out.names[i]) {
                             v.push(Violation { kind: "panic".into(), detail: format!("actor {} panicked", out.names[i]) });
                         }
                     }
